@@ -117,6 +117,23 @@ def s_import_diff_stream(d):
     return t, (lambda c: c.import_objects((k for k in ks), s, target_memory_bytes=1, callback=lambda action, value: None)), set()
 
 
+def s_topack_many(d):
+    # one direct-to-pack call with far more objects than any internal batching threshold could plausibly be (crash/power-loss sweeps visit
+    # only the boundaries around the non-write calls of such a long trace: sweep.sparse_points)
+    objs = [b'm%d' % i for i in range(12000)]
+    return base(d, target=10 ** 9), (lambda c: c.add_objects_to_pack(objs)), set()
+
+
+def s_pack_many(d):
+    t = base(d, target=10 ** 9)
+    c = Container(d)
+    for i in range(2500):
+        b = b'pm%d' % i
+        t[c.add_object(b)] = b
+    c.close()
+    return t, (lambda c: c.pack_all_loose()), set()
+
+
 def s_clean_dups(d):
     t = base(d)
     k = H(A[2])
@@ -141,7 +158,7 @@ def s_add_damaged(d):
 
 
 # ---- generated scenarios: rnd_<kind>_<seed>, kind in RAND_KINDS; everything is derived from the name ----
-RAND_KINDS = ['add', 'pack', 'topack', 'import', 'delete', 'clean', 'repack']
+RAND_KINDS = ['add', 'pack', 'topack', 'import', 'delete', 'clean', 'repack', 'loosen']
 
 
 def _rand_content(r, tag):
@@ -183,6 +200,11 @@ def rand_spec(name):
     elif kind == 'repack':
         sp.update(mode=r.choice(['keep', 'yes', 'no', 'auto']), ndel=r.randint(0, 2))
         sp['npacked'] = max(sp['npacked'], 2)
+    elif kind == 'loosen':
+        # re-loosening of a packed object: directly, or through a seeking read of a compressed packed object
+        sp.update(via=r.choice(['call', 'seek_end', 'seek_back']), big=r.random() < 0.5)
+        sp['npacked'] = max(sp['npacked'], 1)
+        sp['pre_compress'] = True
     return sp
 
 
@@ -233,6 +255,22 @@ def rand_scenario(name):
         elif kind == 'clean':
             c.pack_all_loose(compress=r.random() < 0.5)
             op = lambda cc: cc.clean_storage(vacuum=sp['vacuum'])
+        elif kind == 'loosen':
+            big = (b'loosen-me ' * 30000)[:200001] if sp['big'] else b'loosen-me ' * 9
+            kb = c.add_objects_to_pack([big], compress=True)[0]
+            truth[kb] = big
+
+            def op(cc, kb=kb, big=big):
+                if sp['via'] == 'call':
+                    cc.loosen_object(kb)
+                else:
+                    with cc.get_object_stream(kb) as st:
+                        if sp['via'] == 'seek_end':
+                            st.seek(0, 2)
+                        else:
+                            st.read(7)
+                            st.seek(-3, 1)
+                        st.read(5)
         else:  # repack
             c.pack_all_loose()
             c.clean_storage()
@@ -261,8 +299,10 @@ class _NonDefaultFsync(set):
 
 
 SCEN = _Scen({k[2:]: v for k, v in list(globals().items()) if k.startswith('s_')})
-QUICK = ['add', 'add_dup', 'pack', 'pack_small', 'pack_nofsync_clean', 'pack_then_clean', 'topack_nh_rt0', 'topack_nofsync', 'delete', 'repack', 'import_diff', 'import_same_stream', 'clean']
+QUICK = ['add', 'add_dup', 'loosen', 'topack_many', 'pack', 'pack_small', 'pack_nofsync_clean', 'pack_then_clean', 'topack_nh_rt0', 'topack_nofsync', 'delete', 'repack', 'import_diff', 'import_same_stream', 'clean']
 # scenarios that switch the fsync defaults off are outside C06 ("with the default fsync settings")
 NON_DEFAULT_FSYNC = _NonDefaultFsync({'pack_nofsync', 'pack_nofsync_clean', 'topack_nofsync'})
 # scenarios that keep the default fsync settings and start from an undamaged state (C06)
 DAMAGED_PRE = {'clean_dups', 'add_damaged'}
+# long traces: swept sparsely, not replayed through the extracted model (unary naturals)
+HEAVY = {'topack_many', 'pack_many'}
